@@ -391,11 +391,91 @@ fn restore_strategy(ctx: &Ctx) -> BoxedStrategy<RestoreCase> {
         .boxed()
 }
 
+// ---------------------------------------------------------------------------
+// fill_rect and draw_image_* under T: the same user-space rectangle as a path
+
+#[derive(Clone, Debug, Serialize, Deserialize)]
+pub struct RectCase {
+    pub w: i32,
+    pub h: i32,
+    pub init: Vec<u32>,
+    pub xf: Xf,
+    pub rect: [f32; 4],
+    pub src: SrcSpec,
+    pub opts: Opts,
+    /// draw_image_at of this image at rect's origin instead of fill_rect
+    pub image: Option<ImageSpec>,
+}
+
+pub fn check_rect(c: &RectCase) -> CheckResult {
+    let mut o = Outcome::new();
+    o.fp = fp_of(c);
+    let t = to_transform(&c.xf);
+    let dopts = c.opts.build();
+    let [x, y, rw, rh] = c.rect;
+    let mut a = new_target(c.w, c.h, &c.init);
+    a.set_transform(&t);
+    let mut b = new_target(c.w, c.h, &c.init);
+    b.set_transform(&t);
+    match &c.image {
+        None => {
+            // fill_rect(x, y, w, h) is the fill of the rectangle path in the same user space, whatever T is
+            c.src.with(|s| a.fill_rect(x, y, rw, rh, s, &dopts));
+            let mut pb = PathBuilder::new();
+            pb.rect(x, y, rw, rh);
+            c.src.with(|s| b.fill(&pb.finish(), s, &dopts));
+            if let Some(m) = diff(a.get_data(), b.get_data(), c.w) {
+                return Err(format!("fill_rect({}, {}, {}, {}) under transform {:?} differs from filling PathBuilder::rect of it under the same transform: {} [{}]", x, y, rw, rh, c.xf, m, c.src.kind()));
+            }
+            o.class("fill_rect");
+        }
+        Some(img) => {
+            // draw_image_at(x, y) is the fill of the image's rectangle with the image translated to (x, y), in user space
+            let image = Image { width: img.w, height: img.h, data: &img.data };
+            a.draw_image_at(x, y, &image, &dopts);
+            let mut pb = PathBuilder::new();
+            pb.rect(x, y, img.w as f32, img.h as f32);
+            let src = Source::Image(image, ExtendMode::Pad, FilterMode::Bilinear, Transform::translation(-x, -y));
+            b.fill(&pb.finish(), &src, &dopts);
+            if let Some(m) = diff(a.get_data(), b.get_data(), c.w) {
+                return Err(format!("draw_image_at({}, {}) under transform {:?} differs from filling the image's rectangle with the translated image source under the same transform: {}", x, y, c.xf, m));
+            }
+            o.class("draw_image_at");
+        }
+    }
+    o.judged = a.get_data().len() as u64;
+    let integer = x.fract() == 0.0 && y.fract() == 0.0 && rw.fract() == 0.0 && rh.fract() == 0.0;
+    o.class_if(integer, "integer-rect");
+    let m = &c.xf;
+    let pure_translation = m[0] == 1.0 && m[1] == 0.0 && m[2] == 0.0 && m[3] == 1.0;
+    o.class_if(pure_translation && (m[4] == 0.0) != (m[5] == 0.0), "translation-along-one-axis");
+    o.class(classify_xf(&c.xf));
+    o.nontrivial = a.get_data() != &c.init[..] && !matches!(classify_xf(&c.xf), "xf:identity");
+    Ok(o)
+}
+
+fn rect_strategy(ctx: &Ctx) -> BoxedStrategy<RectCase> {
+    let ctx = ctx.clone();
+    (4i32..=16, 4i32..=16)
+        .prop_flat_map(move |(w, h)| {
+            let ext = w.max(h) as f32;
+            let tr = || prop_oneof![2 => Just(0.0f32), 2 => (-6i32..=6).prop_map(|v| v as f32), 1 => -6.0f32..6.0];
+            // translations (each axis zero, whole or fractional on its own) are half of the transforms here:
+            // they are what an "is the transform trivial?" shortcut in fill_rect would look at
+            let xf = prop_oneof![4 => (tr(), tr()).prop_map(|(x, y)| [1.0f32, 0., 0., 1., x, y]), 4 => xf_invertible(5.0)];
+            let c = move || prop_oneof![2 => (-3i32..=16).prop_map(|v| v as f32), 1 => -3.0f32..ext];
+            let sz = move || prop_oneof![2 => (0i32..=12).prop_map(|v| v as f32), 1 => 0.0f32..ext];
+            (Just((w, h)), init_pixels(w, h), xf, (c(), c(), sz(), sz()), any_src(&ctx, ext), opts_any(), prop::option::weighted(0.3, image_spec(5, 5)))
+        })
+        .prop_map(|((w, h), init, xf, (x, y, rw, rh), src, opts, image)| RectCase { w, h, init, xf, rect: [x, y, rw, rh], src, opts, image })
+        .boxed()
+}
+
 pub fn property(ctx: &Ctx) -> Property {
-    let (c1, c2, c3, c4) = (ctx.clone(), ctx.clone(), ctx.clone(), ctx.clone());
+    let (c1, c2, c3, c4, c5) = (ctx.clone(), ctx.clone(), ctx.clone(), ctx.clone(), ctx.clone());
     Property {
         id: "C11",
-        rule: "part fill: random polygon/curve paths, every source kind, 28 modes, all invertible transform classes: fill under T must equal, bit for bit, filling Path::transform(T) of the path under the identity with the source's transform preceded by T^-1 (sources live in user space). part stroke: polylines stroked (all caps/joins/dashes) under a similarity must match stroking the transformed polyline with width, dashes and offset scaled (line width scales with T) up to one quarter-sample flip per edge. part singular: every drawing call except mask/clear under non-invertible T changes nothing. part device: push_clip_rect (probed by an identity-transform fill), mask geometry with solid sources, copy_surface, blend_surface, blend_surface_with_alpha give identical pixels under any T. part restore: get_transform() is bit-equal after clear() and pop_layer (with/without clip) and a following draw equals the draw with T re-set. parts gradient-under-ctm / image-under-ctm: C12's gradient cases and C13's image cases with a non-identity current transform (incl. mirrored, sheared and zoomed user spaces), colour judged absolutely at T^-1 of the pixel centre by those properties' oracles. Non-trivial: T not identity/integer translation (fill), scale away from 1 (stroke), non-identity T (device/restore); distinct by hash of the case.",
+        rule: "part fill: random polygon/curve paths, every source kind, 28 modes, all invertible transform classes: fill under T must equal, bit for bit, filling Path::transform(T) of the path under the identity with the source's transform preceded by T^-1 (sources live in user space). part stroke: polylines stroked (all caps/joins/dashes) under a similarity must match stroking the transformed polyline with width, dashes and offset scaled (line width scales with T) up to one quarter-sample flip per edge. part singular: every drawing call except mask/clear under non-invertible T changes nothing. part device: push_clip_rect (probed by an identity-transform fill), mask geometry with solid sources, copy_surface, blend_surface, blend_surface_with_alpha give identical pixels under any T. part restore: get_transform() is bit-equal after clear() and pop_layer (with/without clip) and a following draw equals the draw with T re-set. part rect: fill_rect (integer and fractional rectangles) and draw_image_at under any T, half of them translations with each axis zero / whole / fractional on its own, must equal, bit for bit, filling PathBuilder::rect of the same rectangle (with the translated image source) under the same T. parts gradient-under-ctm / image-under-ctm: C12's gradient cases and C13's image cases with a non-identity current transform (incl. mirrored, sheared and zoomed user spaces), colour judged absolutely at T^-1 of the pixel centre by those properties' oracles. Non-trivial: T not identity/integer translation (fill), scale away from 1 (stroke), non-identity T (device/restore); distinct by hash of the case.",
         assumptions: vec![
             "mask() under a singular transform is not judged (the statement allows both readings)",
             "stroke part: the two sides differ by f32 rounding of positions, which the quarter-pixel vertex truncation can amplify to 1/4 px: alpha differences up to 80/255 (polylines) resp. 140/255 (curves, 0.2 px flattening difference) per pixel are accepted; a width that does not scale differs by 255 on whole bands",
@@ -411,10 +491,11 @@ pub fn property(ctx: &Ctx) -> Property {
             // that hand the library the same device-to-source matrix, so a slip in how that matrix is *used* hides
             // from it; these two parts judge the colour absolutely, with C12's gradient oracle and C13's image
             // oracle, on cases whose current transform is not the identity
+            part("rect", 40_000, 600_000, move || rect_strategy(&c5), check_rect),
             part("gradient-under-ctm", 12_000, 200_000, move || super::c12::strategy(&c4).prop_filter("non-identity CTM", |c| c.ctm != IDENT).boxed(), super::c12::check),
             part("image-under-ctm", 20_000, 300_000, || super::c13::strategy().prop_filter("non-identity CTM", |c| c.ctm != IDENT).boxed(), super::c13::check),
         ],
-        min_class_fraction: vec![("fill", "src:image", 0.1), ("fill", "image:linear-parts-cancel-to-integer-translation", 0.01), ("fill", "xf:general", 0.05), ("fill", "xf:rotation", 0.05), ("stroke", "dashed", 0.1), ("stroke", "curved-input", 0.25), ("restore", "pop_layer", 0.3)],
+        min_class_fraction: vec![("fill", "src:image", 0.1), ("fill", "image:linear-parts-cancel-to-integer-translation", 0.01), ("fill", "xf:general", 0.05), ("fill", "xf:rotation", 0.05), ("stroke", "dashed", 0.1), ("stroke", "curved-input", 0.25), ("restore", "pop_layer", 0.3), ("rect", "translation-along-one-axis", 0.1), ("rect", "integer-rect", 0.1)],
         panic_is_violation: false,
     }
 }
